@@ -126,6 +126,13 @@ Ltac inv_norm :=
 Lemma inv_fresh : forall s c s', inv s -> j_fresh s = (c, s') -> inv s'.
 Proof. unfold j_fresh; intros s c s' H E; inversion E; subst. apply (inv_same s); auto. Qed.
 
+Lemma inv_fresh2 : forall s c s', inv s -> j_fresh2 s = (c, s') -> inv s'.
+Proof.
+  unfold j_fresh2; intros s c s' H E.
+  destruct (j_fresh s) as [c1 s1] eqn:E1. destruct (j_fresh s1) as [c2 s2] eqn:E2.
+  inversion E; subst. eapply inv_fresh; [|eassumption]. first [eapply inv_fresh2; eassumption | eapply inv_fresh; eassumption].
+Qed.
+
 Definition P_exec (fuel : nat) : Prop :=
   forall gx p d cell dl ss s out s', inv s -> impl_exec gx fuel p d cell dl ss s = Some (out, s') -> inv s'.
 Definition P_fun (fuel : nat) : Prop :=
@@ -156,26 +163,26 @@ Proof.
         try assumption.
       all: try (eapply IHe; [|eassumption]; inv_norm;
                 first [ eapply inv_recover; eassumption
-                      | eapply IHf; [|eassumption]; inv_norm; eapply inv_fresh; eassumption
+                      | eapply IHf; [|eassumption]; inv_norm; first [eapply inv_fresh2; eassumption | eapply inv_fresh; eassumption]
                       | eapply IHf; eassumption
                       | eapply IHc; [|eassumption]; inv_norm; assumption
                       | assumption ]; fail).
-      all: try (eapply IHf; [|eassumption]; inv_norm; first [eapply inv_fresh; eassumption | assumption]; fail).
+      all: try (eapply IHf; [|eassumption]; inv_norm; first [first [eapply inv_fresh2; eassumption | eapply inv_fresh; eassumption] | assumption]; fail).
       all: try (eapply IHc; [|eassumption]; inv_norm; assumption).
       all: try (inv_norm; assumption). }
     assert (Hf : P_fun (S fuel)).
     { red. intros gx p d cell body s out s' Hinv H. cbn [impl_fun] in H. crack;
         try (eapply IHe; eassumption).
-      all: try (eapply IHc; [|eassumption]; eapply IHe; [|eassumption]; inv_norm; eapply inv_fresh; eassumption). }
+      all: try (eapply IHc; [|eassumption]; eapply IHe; [|eassumption]; inv_norm; first [eapply inv_fresh2; eassumption | eapply inv_fresh; eassumption]). }
     assert (Hl : P_loop (S fuel)).
     { red. intros gx p d cur fromPanic local s out s' Hinv H. cbn [impl_loop] in H. crack.
       all: try (inv_norm; assumption).
       all: try (eapply IHl; [|eassumption]; inv_norm; assumption).
       all: try (eapply IHf; [|eassumption]; first [ eapply inv_pop; eassumption
-                 | inv_norm; eapply inv_fresh; [|eassumption]; eapply inv_pop; eassumption ]; fail).
+                 | inv_norm; first [eapply inv_fresh2; [|eassumption]; eapply inv_pop; eassumption | eapply inv_fresh; [|eassumption]; eapply inv_pop; eassumption] ]; fail).
       all: try (eapply IHl; [|eassumption]; eapply IHf; [|eassumption];
                 first [ eapply inv_pop; eassumption
-                      | inv_norm; eapply inv_fresh; [|eassumption]; eapply inv_pop; eassumption ]). }
+                      | inv_norm; first [eapply inv_fresh2; [|eassumption]; eapply inv_pop; eassumption | eapply inv_fresh; [|eassumption]; eapply inv_pop; eassumption] ]). }
     assert (Hc : P_cd (S fuel)).
     { red. intros gx p d deferred jsErr fromPanic s out s' Hinv H. cbn [impl_cd] in H. crack.
       all: try assumption.
